@@ -459,12 +459,28 @@ class Interp:
             if isinstance(a, ListV) and isinstance(b, ListV):
                 if op == '+' and not getattr(a, 'is_array', False) and not getattr(b, 'is_array', False):
                     return ListV(a.items + b.items)
-                if len(a) == len(b):
+                a_nested = bool(a.items) and all(isinstance(x, ListV) for x in a.items)
+                b_nested = bool(b.items) and all(isinstance(y, ListV) for y in b.items)
+                a_flat = not any(isinstance(x, ListV) for x in a.items)
+                b_flat = not any(isinstance(y, ListV) for y in b.items)
+                if getattr(a, 'is_array', False) and a_nested and b_flat and b.items:
+                    # numpy aligns trailing axes: a vector acts on the last axis of a higher-dimensional array
+                    r = ListV([self.binop(op, x, b) for x in a.items])
+                elif getattr(b, 'is_array', False) and b_nested and a_flat and a.items:
+                    r = ListV([self.binop(op, a, y) for y in b.items])
+                elif len(a) == len(b):
                     r = ListV([self.binop(op, x, y) for x, y in zip(a.items, b.items)])
                 elif len(b) == 1:
                     r = ListV([self.binop(op, x, b.items[0]) for x in a.items])
                 elif len(a) == 1:
                     r = ListV([self.binop(op, a.items[0], y) for y in b.items])
+                elif a.items and all(isinstance(x, ListV) for x in a.items) and \
+                        not any(isinstance(y, ListV) for y in b.items):
+                    # numpy broadcasting: a vector against the trailing axis of a higher-dimensional array
+                    r = ListV([self.binop(op, x, b) for x in a.items])
+                elif b.items and all(isinstance(y, ListV) for y in b.items) and \
+                        not any(isinstance(x, ListV) for x in a.items):
+                    r = ListV([self.binop(op, a, y) for y in b.items])
                 else:
                     raise Unsupported('shape mismatch in elementwise operation')
             elif isinstance(a, ListV):
@@ -758,6 +774,19 @@ class Frame:
                     not getattr(cur, 'is_set', False):
                 # lists and numpy arrays are updated in place: every other name bound to the object sees it
                 cur.items[:] = list(res.items)
+                view = getattr(cur, 'view_of', None)
+                if view is not None:
+                    base_, ax_ = view
+                    inv = [ax_.index(k_) for k_ in range(len(ax_))]
+                    back = nd_transpose(cur, inv)
+
+                    def deep(dst, src):
+                        for k_, (d_, s__) in enumerate(zip(dst.items, src.items)):
+                            if isinstance(d_, ListV) and isinstance(s__, ListV):
+                                deep(d_, s__)
+                            else:
+                                dst.items[k_] = s__
+                    deep(base_, back)
                 return
             self.assign(st.target, res)
             return
@@ -953,6 +982,9 @@ class Frame:
                         cur.items[:] = list(v.items)
                         return
                     raise _RaisedExc(Raised('ValueError', target))      # shape mismatch in row assignment
+                if getattr(cur, 'dtype', None) in ('caller', 'int') and not (
+                        isinstance(v, Rat) and v.is_const() and v.const_value().denominator == 1):
+                    I.dtype_hazards.append((target, self.module.relpath))
                 cur.items[self.index(last, len(cur), target)] = v
                 return
             if isinstance(base, ListV) and isinstance(idx, SliceV):
@@ -966,8 +998,8 @@ class Frame:
                 i = self.index(idx, len(base), target)
                 if self.in_vec_loop:
                     raise Unsupported('indexed store inside vector loop', target, self.module.relpath)
-                if getattr(base, 'dtype', None) == 'caller' and not (isinstance(v, Rat) and v.is_const()
-                                                                      and v.const_value().denominator == 1):
+                if getattr(base, 'dtype', None) in ('caller', 'int') and not (
+                        isinstance(v, Rat) and v.is_const() and v.const_value().denominator == 1):
                     I.dtype_hazards.append((target, self.module.relpath))
                 base.items[i] = v
                 return
@@ -2033,7 +2065,10 @@ def bound_native(I, fr, bn, args, kwargs, n):
             return _np_dot(I, fr, [b, args[0]], {}, n)
         if name == 'transpose' and getattr(b, 'is_array', False):
             axes = args[0] if len(args) == 1 and isinstance(args[0], ListV) else ListV(list(args))
-            return nd_transpose(b, [_as_int(a, n) for a in axes.items])
+            ax_ = [_as_int(a, n) for a in axes.items]
+            tv = nd_transpose(b, ax_)
+            tv.view_of = (b, ax_)           # numpy returns a view: in-place updates reach the original array
+            return tv
         if name == 'copy':
             r = ListV(list(b.items))
             r.is_array = getattr(b, 'is_array', False)
@@ -2251,7 +2286,22 @@ def abstract_str_method(I, fr, b, name, args, kwargs, n):
         k = len(args[0])
         try:
             piece = sb.slice(0, k) if name == 'startswith' else sb.slice(len(sb) - k, len(sb))
-        except Cut:
+        except Cut as e_:
+            # the compared characters belong to a symbolic field: the outcome depends on its spelling when the
+            # field's alphabet can produce them (a species named END..., a formatted number for digits)
+            from .absre import grammar
+            fld = e_.seg
+            if fld.cls == 'num':
+                may = set(args[0]) <= set('0123456789+-.eE ')
+            else:
+                g = grammar(fld)
+                may = all(ch in g[min(i, len(g) - 1)] for i, ch in enumerate(args[0])) if g else False
+            if may:
+                I.hazards.append((n, '%s(%r) of user-controlled text %r' % (name, args[0], sb)))
+            return False
+        if not piece.is_literal() and len(piece.segs) >= 1:
+            # whole fields are compared with a literal: same question
+            I.hazards.append((n, '%s(%r) of user-controlled text %r' % (name, args[0], sb)))
             return False
         return piece.is_literal() and piece.literal() == args[0]
     raise Unsupported('method %s on an abstract string' % name, n)
@@ -2312,8 +2362,34 @@ def _np_like(val):
     return h
 
 
+INT_DTYPES = ('int', 'np.int64', 'np.int32', 'np.int_', 'int64', 'int32', 'i8', 'i4', 'np.intp', 'bool', 'np.bool_')
+
+
+def _dtype_tag(dt):
+    if isinstance(dt, Builtin):
+        dt = dt.name
+    if dt is None:
+        return None
+    if dt in FLOAT_DTYPES:
+        return 'float'
+    if dt in INT_DTYPES:
+        return 'int'
+    return 'other:%s' % (dt,)
+
+
+def _tag_dtype(v, tag):
+    if tag is not None and isinstance(v, ListV):
+        v.dtype = tag
+        for x in v.items:
+            _tag_dtype(x, tag)
+    return v
+
+
 def _np_zeros(val):
     def h(I, fr, args, kwargs, n):
+        return _tag_dtype(h0(I, fr, args, kwargs, n), _dtype_tag(_arg(args, kwargs, 1, 'dtype', None)))
+
+    def h0(I, fr, args, kwargs, n):
         shape = _arg(args, kwargs, 0, 'shape')
         if isinstance(shape, ListV) and len(shape) >= 2:
             dims = [_as_int(x, n) for x in shape.items]
@@ -3039,6 +3115,24 @@ def _np_full_like(I, fr, args, kwargs, n):
     raise Unsupported('np.full_like operand', n)
 
 
+def _np_searchsorted(I, fr, args, kwargs, n):
+    """index at which v would be inserted into the (ascending) sequence: number of entries < v (side='left',
+    default) or <= v (side='right'); comparisons are answered by the ordering oracle"""
+    a = _arg(args, kwargs, 0, 'a')
+    v = _arg(args, kwargs, 1, 'v')
+    side = _arg(args, kwargs, 2, 'side', 'left')
+    if not isinstance(a, ListV) or not isinstance(v, Rat):
+        raise Unsupported('np.searchsorted operands', n)
+    op = '<' if side == 'left' else '<='
+    k = 0
+    for x in a.items:
+        if I.compare(op, x, v, n):
+            k += 1
+        else:
+            break
+    return C(k)
+
+
 def _np_full(I, fr, args, kwargs, n):
     shape = _arg(args, kwargs, 0, 'shape')
     fill = _arg(args, kwargs, 1, 'fill_value')
@@ -3139,6 +3233,7 @@ NATIVE = {
     'numpy.atleast_1d': _np_atleast_1d,
     'numpy.full_like': _np_full_like,
     'numpy.full': _np_full,
+    'numpy.searchsorted': _np_searchsorted,
     'scipy.integrate.quad': _quad,
 }
 
